@@ -82,6 +82,11 @@ def make (spec0):
         if rz.random () < 0.15:
             k = int (rz.integers (0, 2))
             ax [k] = (ax [k][0], 0.0, max (2, min (ax [k][2], 7)))
+        elif rz.random () < 0.2:
+            # one axis in whole numbers, the other in fractions (Angle (0, 10, 10) with Angle (0, 22.5, 17))
+            k = int (rz.integers (0, 2))
+            ax [k]     = (float (rz.choice ([0, 5, 10, -30])), float (rz.choice ([10, 15, 30, -5])), ax [k][2])
+            ax [1 - k] = (float (rz.choice ([0, 7.5, 0.5])), float (rz.choice ([22.5, 0.5, 2.25, -7.5])), ax [1 - k][2])
     elif kind == 'near':
         ax = [draw_axis (rng, 4) for k in range (3)]
         while ax [0][2] * ax [1][2] * ax [2][2] > 40:
@@ -113,8 +118,10 @@ def check (spec0):
     if spec ['route'] == 'api':
         m = model (spec.get ('env', 'free'))
         if spec ['kind'] == 'far':
-            zen = MM.Angle (ax [0][0], ax [0][1], ax [0][2])
-            azi = MM.Angle (ax [1][0], ax [1][1], ax [1][2])
+            # (whole numbers as python ints, as one writes Angle (0, 10, 10) by hand)
+            wi  = lambda v: int (v) if float (v).is_integer () and (ax [0][2] + ax [1][2]) % 4 else v
+            zen = MM.Angle (wi (ax [0][0]), wi (ax [0][1]), ax [0][2])
+            azi = MM.Angle (wi (ax [1][0]), wi (ax [1][1]), ax [1][2])
             common.guarded (lambda: m.compute_far_field (zen, azi), 'compute_far_field')
             # both tables of one pattern, each printed twice
             mon ['far.rows'] = 1
@@ -146,6 +153,12 @@ def check (spec0):
                     viol.append (dict (monitor = 'near.second-request', key = 'near-point-count'
                                       , msg = 'second request on the same object (%d x %d x %d after %d x %d x %d): %d points' % (a2 [0][2], a2 [1][2], a2 [2][2], nvec [0], nvec [1], nvec [2], got.size // 3)))
                 common.guarded (lambda: m.compute_near_field (start, inc, nvec), 'compute_near_field')
+                # ... and once more, the very same request twice in a row
+                first = np.array (m.near_field_coord)
+                common.guarded (lambda: m.compute_near_field (start, inc, nvec), 'compute_near_field')
+                mon ['near.repeat'] = 1
+                if not np.array_equal (first, np.array (m.near_field_coord)):
+                    viol.append (dict (monitor = 'near.repeat', key = 'near-points-repeat', msg = 'the same near-field request twice in a row: the second table has other points than the first'))
                 if spec ['kind'] == 'near':
                     mon ['near.values'] = 1
                     N = nvec [0] * nvec [1] * nvec [2]
